@@ -601,6 +601,15 @@ func c17Corpus(r *fw.Rec, s corpus.Source) {
 		r.Violate(fw.Violation{Key: "corpus-" + key + "/" + s.ID, Input: text, What: what})
 		return
 	}
+	// the lists of a parsed module are its nodes' own: no two of them share
+	// storage behind their ends (appending a field to one tuple would overwrite
+	// the first reference of another: identity with the definition lost by an edit
+	// of something else)
+	if what := overlappingSlices(m); what != "" {
+		r.Violate(fw.Violation{Key: "corpus-lists-share-storage/" + s.ID, Input: text, What: what})
+		return
+	}
+	r.Tally("references", "corpus:lists-with-storage-of-their-own")
 	r.TallyN("references", "corpus:ref.metadata", c.Refs["ref.metadata"])
 	r.TallyN("references", "corpus:cyclic.metadata", c.Refs["cyclic.metadata"])
 	// distinctness: `!N = distinct ...` in the text, Distinct on the definition !N (and only there)
